@@ -17,6 +17,15 @@ import asyncio, json, os, random, re, select, shutil, stat
 from lib import common, projgen, e2e, treecanon, bobapi
 from lib.common import result, violation
 
+def audit_ids(dist):
+    import gzip
+    try:
+        a = json.loads(gzip.decompress(open(os.path.join(dist, "..", "audit.json.gz"), "rb").read()))["artifact"]
+        return {k: a[k] for k in ("variant-id", "build-id", "result-hash")}
+    except (OSError, ValueError, KeyError):
+        return None
+
+
 ID = "C06"
 LEVEL = "exploration"
 BATCH = 1
@@ -38,6 +47,8 @@ def plan(tier, seed):
     ne, nj, ns = (8, 3, 5) if tier == "quick" else (300, 60, 200)
     for i in range(ne):
         cases.append({"kind": "e2e", "seed": common.subseed(seed, "c06e", i), "assignments": 2 if tier == "quick" else 5})
+    for i in range(3 if tier == "quick" else 60):
+        cases.append({"kind": "checkoutonly", "seed": common.subseed(seed, "c06c", i), "assignments": 3 if tier == "quick" else 6})
     for i in range(nj):
         cases.append({"kind": "jobserver", "seed": common.subseed(seed, "c06j", i)})
     for i in range(ns):
@@ -178,6 +189,12 @@ def run_e2e(case):
                 diffs = e2e.compare_dists(dw, dref)
                 if diffs:
                     viol.append(violation("parallel-result-differs-from-sequential-result", dict(ctx, differences=diffs)))
+                # the recorded identity of each result (audit trail: variant-id, build-id, result-hash) is part of the package result
+                idd = [(n, audit_ids(dw[n]), audit_ids(dref[n])) for n in sorted(dw) if n in dref]
+                counters["result_identities_compared"] = counters.get("result_identities_compared", 0) + len(idd)
+                idd = [x for x in idd if x[1] != x[2] and x[1] is not None and x[2] is not None]
+                if idd:
+                    viol.append(violation("parallel-build-records-different-ids-than-sequential-build", dict(ctx, package=idd[0][0], parallel=idd[0][1], sequential=idd[0][2], packages_affected=len(idd))))
             else:
                 if r.returncode == 0:
                     # the failing fragment may legitimately not be reached (e.g. class script unused): only then success is fine
@@ -366,8 +383,73 @@ def run_semaphore(case):
     return result("held", sigs=sorted(sigs), counters=counters, violations=viol[:4], sample={"kind": "semaphore", "programmes": case["programmes"] * 2})
 
 
+def run_checkoutonly(case):
+    """--checkout-only under parallelism: a checkout step whose tools must really be built first.
+
+    Tool package `tl` is (a) a checkoutTools tool of 1-2 packages and (b) a plain result dependency of others; the order of the root's
+    dependencies and the job count are seeded.  Reference: the source workspaces of a complete sequential build.  `bob dev
+    --checkout-only -jN` in a fresh project must produce the same source workspaces (a checkout that ran before its tool was
+    built records 'command not found' in its output or fails).
+    """
+    rnd = random.Random(case["seed"])
+    counters = dict.fromkeys(REQUIRED_COUNTERS, 0)
+    counters["checkout_only_builds"] = 0
+    viol, sigs = [], set()
+    k0 = lambda: {k: [] for k in projgen.KINDS}
+    T = lambda: projgen.new_tok(rnd)
+    m = {"recipes": {}, "classes": {}, "sources": {}, "defines": {}, "default": {}, "evlog": True, "ctl": True}
+    m["recipes"]["tl"] = {"env": {}, "vars": k0(), "weak": k0(), "tok": {"checkout": None, "build": T(), "package": T()}, "ptools": {"t1": {"path": "bin", "libs": []}}, "tools": k0(), "toolsWeak": k0(), "depends": []}
+    users = ["a%d" % i for i in range(rnd.choice([1, 2]))]
+    plain = ["b%d" % i for i in range(rnd.choice([1, 2]))]
+    for n in users:
+        tools = k0(); tools["checkout"] = ["t1"]
+        m["recipes"][n] = {"env": {}, "vars": k0(), "weak": k0(), "cdet": True, "tok": {"checkout": T(), "build": T(), "package": T()}, "tools": tools, "toolsWeak": k0(),
+                           "depends": [{"name": "tl", "use": ["tools"]}]}
+    for n in plain:
+        m["recipes"][n] = {"env": {}, "vars": k0(), "weak": k0(), "tok": {"checkout": (T() if rnd.random() < 0.5 else None), "build": T(), "package": T()}, "tools": k0(), "toolsWeak": k0(),
+                           "depends": [{"name": "tl", "use": ["result"]}]}
+        if m["recipes"][n]["tok"]["checkout"]:
+            m["recipes"][n]["cdet"] = True
+    order = users + plain
+    rnd.shuffle(order)
+    m["recipes"]["root"] = {"root": True, "env": {}, "vars": k0(), "weak": k0(), "tok": {"checkout": None, "build": T(), "package": T()}, "tools": k0(), "toolsWeak": k0(),
+                            "depends": [{"name": n} for n in order]}
+    with common.scratch("c06c") as base:
+        ctl = os.path.join(base, "ctl"); os.makedirs(ctl)
+        env = {"VERIF_CTL": ctl}
+        x = ["-e", "VERIF_CTL"]
+        R = os.path.join(base, "R"); projgen.write_project(R, m)
+        rr = e2e.build(R, m, "dev", extra=x + ["-j1"], env=env)
+        if rr.returncode != 0:
+            return result("trivial", counters=counters, note="reference build failed: " + rr.tail(300))
+        sref, _ = e2e.dists(R, m, "dev", field="src")
+        ref = {n: treecanon.canon(d) for n, d in sref.items()}
+        for a in range(case["assignments"]):
+            j = rnd.choice([1, 2, 4, 8])
+            for f in os.listdir(ctl):
+                if f != "bobpid": os.unlink(os.path.join(ctl, f))
+            for n in list(m["recipes"]):
+                for k in ("build", "package"):
+                    if rnd.random() < 0.6:
+                        open(os.path.join(ctl, "%s.%s.sleep" % (n, k)), "w").write("%.3f" % (rnd.random() * 0.08))
+            P = os.path.join(base, "P%d" % a); projgen.write_project(P, m)
+            r = e2e.build(P, m, "dev", extra=x + ["-j%d" % j, "--checkout-only"], env=env)
+            counters["checkout_only_builds"] += 1; counters["parallel_builds"] += 1
+            ctx = {"jobs": j, "mode": "dev --checkout-only", "root_depends": order, "_proj": P}
+            if r.returncode != 0:
+                viol.append(violation("checkout-only-build-failed-although-complete-build-succeeds", dict(ctx, output=r.tail(400)))); continue
+            sw, _ = e2e.dists(P, m, "dev", field="src")
+            bad = [n for n in sorted(ref) if n not in sw or treecanon.canon(sw[n]) != ref[n]]
+            if bad:
+                viol.append(violation("checkout-only-sources-differ-from-complete-build", dict(ctx, packages=bad[:4], diff=treecanon.diff(sw[bad[0]], sref[bad[0]], 4) if bad[0] in sw else "missing")))
+            sigs.add("checkoutonly|j%d|%s" % (j, "".join(x_[0] for x_ in order)))
+    for v in viol:
+        v["detail"].pop("_proj", None)
+    return result("held", sigs=sorted(sigs), counters=counters, violations=viol[:3], sample={"kind": "checkoutonly", "order": order})
+
+
 def run_case(case):
-    return {"e2e": run_e2e, "jobserver": run_jobserver, "semaphore": run_semaphore}[case["kind"]](case)
+    return {"e2e": run_e2e, "jobserver": run_jobserver, "semaphore": run_semaphore, "checkoutonly": run_checkoutonly}[case["kind"]](case)
 
 
 LEVEL_TEXT = ("Exploration of schedules: real parallel builds under seeded duration assignments with an offline history checker over the step "
